@@ -1,3 +1,5 @@
+import Oidc.Proofs.CodeHandler
+import Oidc.Proofs.CodeStrings
 import Oidc.Shapes
 import Oidc.Proofs.Strings
 import Oidc.Proofs.Handler2
@@ -85,5 +87,28 @@ theorem text_createStringMap_ok : Oidc.Shapes.Text_createStringMap := by unfold 
 theorem text_New_ok : Oidc.Shapes.Text_New := by unfold Oidc.Shapes.Text_New; rfl
 theorem text_SessionData_GetEmail_ok : Oidc.Shapes.Text_SessionData_GetEmail := by unfold Oidc.Shapes.Text_SessionData_GetEmail; rfl
 theorem text_SessionData_SetEmail_ok : Oidc.Shapes.Text_SessionData_SetEmail := by unfold Oidc.Shapes.Text_SessionData_SetEmail; rfl
+
+/-! ## The same statements about the code itself: the functions below are `Oidc.Generated.Code`, which `tools/go2lean` translates
+    from /repo's source, statement by statement, on every run (meaning of the Go constructs: `Oidc/GoLib.lean`) -/
+open Oidc.Generated Oidc.CodeRefine in
+/-- main.go `isAllowedDomain` as translated: with domains configured, true iff `local@domain`, exactly one `@`, domain listed -/
+theorem code_isAllowedDomain_iff (t : Go.Inst) (email : Str) (hd : t.allowedUserDomains ≠ []) :
+    Code.TraefikOidc_isAllowedDomain t email = true ↔
+      ∃ l d, email = l ++ '@' :: d ∧ '@' ∉ l ∧ '@' ∉ d ∧ d ∈ t.allowedUserDomains := by
+  rw [isAllowedDomain_refines]; exact isAllowedDomain_iff _ _ hd
+
+open Oidc.Generated Oidc.CodeRefine in
+theorem code_isAllowedDomain_empty (t : Go.Inst) (email : Str) (hd : t.allowedUserDomains = []) :
+    Code.TraefikOidc_isAllowedDomain t email = true := by
+  rw [isAllowedDomain_refines, hd]; exact isAllowedDomain_empty email
+
+open Oidc.Generated Oidc.CodeRefine in
+/-- main.go `extractGroupsAndRoles` as translated: an error iff a present claim is not an array, otherwise the string elements
+    of the two arrays in order -/
+theorem code_extractGroupsAndRoles (t : Go.Inst) (tok : Str) (claims : Go.Obj) (hc : t.extractClaimsFunc tok = (claims, none)) :
+    (match extract (absClaim claims "groups".toList) (absClaim claims "roles".toList) with
+      | none => (Code.TraefikOidc_extractGroupsAndRoles t tok).2.2.isSome = true
+      | some (g, r) => Code.TraefikOidc_extractGroupsAndRoles t tok = (g, r, none)) :=
+  extractGroupsAndRoles_refines t tok claims hc
 
 end Oidc.Props.C06
